@@ -47,10 +47,35 @@ inductive Val where
   | error (e : RunErr)
   deriving Repr, Inhabited
 
-/-- Python truthiness as used by `Preset.reduce` (`if value:`): only `None`/empty is falsy. -/
+/-! ### falsy yet informative payloads
+
+The flow layer is payload agnostic *except* where it tests the truthiness of a payload (`Preset.reduce`: `if value:`).
+So the symbolic payloads come in both kinds: besides `None`, an actor may yield a state or an output that is falsy in
+Python (`b''`, an empty sequence, `0`) and still tells where it came from. Which kind a symbolic actor produces is part
+of its symbol: bit `falsyBase` of the symbol = its `apply` returns a falsy payload, bit `2 * falsyBase` = its
+`get_state()` returns a falsy payload; a stored state `stored i` with `i ≥ falsyBase` is a falsy stored payload. -/
+
+def falsyBase : Nat := 1000
+
+/-- `actor.apply(...)` of this symbolic actor returns a falsy (but distinguishable) payload -/
+def Actor.falsyOut (a : Actor) : Bool := a / falsyBase % 2 == 1
+
+/-- `actor.get_state()` of this symbolic actor returns a falsy (but distinguishable) payload -/
+def Actor.falsyState (a : Actor) : Bool := a / (2 * falsyBase) % 2 == 1
+
+/-- Python truthiness as used by `Preset.reduce` (`if value:`): `None` is falsy, and so are the payloads of the falsy
+kinds above; everything else (projections, state ids, commit effects, errors) is truthy. -/
 def Val.truthy : Val → Bool
   | .none => false
+  | .stored i => decide (i < falsyBase)
+  | .apply a _ _ => !Actor.falsyOut a
+  | .state a _ _ _ => !Actor.falsyState a
   | _ => true
+
+/-- the state an actor holds after `Preset.reduce` offered it `v` on a fresh actor: a falsy value is skipped -/
+def Val.asState (v : Val) : Val := if v.truthy then v else .none
+
+theorem Val.asState_none : Val.asState .none = .none := rfl
 
 /-! ### instructions, symbols, tables -/
 
